@@ -181,7 +181,8 @@ class Identifier(Node):
             str (CSS)
         """
         name = ',$$'.join(''.join(p).strip() for p in self.parsed)
-        name = re.sub('\?(.)\?', '%(ws)s\\1%(ws)s', name) % fills
+        name = re.sub(r'\?(.)\?',
+                      lambda m: fills['ws'] + m.group(1) + fills['ws'], name)
         name = name.replace('$$', fills['nl'])
         # collapse double blanks, but leave attribute selectors ([...]) as written
         return re.sub(r'(\[[^\]]*\])|  ', lambda m: m.group(1) or ' ', name)
